@@ -941,7 +941,10 @@ class AdapterRegistry(BaseAdapterRegistry):
     def __init__(self, bases=()):
         # AdapterRegisties are invalidating registries, so
         # we need to keep track of our invalidating subregistries.
-        self._v_subregistries = weakref.WeakKeyDictionary()
+        # (``rebuild()`` calls us again on an initialized object; the
+        # subregistries we already know about still need notifications.)
+        if self.__dict__.get('_v_subregistries') is None:
+            self._v_subregistries = weakref.WeakKeyDictionary()
 
         super().__init__(bases)
 
